@@ -117,4 +117,31 @@ PROPS = {
         "assumptions": ["HashMap iteration order: the finalized values are an input of the model, which checks that they are among the outcomes the code allows"],
         "trusted_base": ["modelled: CheckPoints::add_check_points, finalize_check_points (cleaning, length_max, per-index vote, retain, write)"],
     },
+    "C03": {
+        "ops": [("c03", "RunC03", {"quick": 300, "thorough": 5000})],
+        "rule": "storage-level histories (6..22 events) on a real RocksDB: set_scripts (all/partial/delete, start numbers at, below and above progress), filter_block of "
+                "generated blocks (spends of live outputs incl. same-block chains, multi-script and typed cells), update_block_number, rollback_to_block followed by a "
+                "different branch, late add_fetched_tx answers, min-filtered updates, pending matched records; script pools with and without prefix-related args; "
+                "after every event the full dump (scripts, cell index, history, tx table, headers, min filtered, records) is compared with Model/Store.v; in the stratum "
+                "with a static script set registered at 0 the cell index is also compared with the ground-truth UTXO set of the current branch",
+        "assumptions": ["RocksDB WriteBatch atomicity and ordering trusted", "script and transaction identities interned by the harness"],
+        "trusted_base": ["modelled: update_filter_scripts, filter_block, rollback_to_block, update_block_number, add_fetched_tx, matched-block records"],
+    },
+    "C04": {
+        "ops": [("c03", "RunC03", {"quick": 300, "thorough": 5000}), ("sys", "RunSys", {"quick": 80, "thorough": 1500})],
+        "rule": "op c03: storage-level histories with rollback_to_block followed by a different branch, every step's dump compared with Model/Store.v and (static script "
+                "set) the cell index with the ground-truth UTXO set of the branch that is current; op sys: whole-client histories with competing chains, fork switches "
+                "and restarts compared with Model/System.v (stored tip, last-N, pending records after commit_prove_state)",
+        "assumptions": ["RocksDB WriteBatch atomicity and ordering trusted", "honest peers answer with the RFC-44 prover re-implemented in the harness"],
+        "trusted_base": ["modelled: commit_prove_state (fork detection, matched-record sweep), rollback_to_block"],
+    },
+    "C09": {
+        "ops": [("c03", "RunC03", {"quick": 300, "thorough": 5000})],
+        "rule": "storage-level histories in which set_scripts (all / partial / delete, empty lists, duplicates, start numbers above and below progress) is issued between "
+                "filter_block / update_block_number / min-filtered updates / pending matched records; every step's dump compared with Model/Store.v; after every set_scripts "
+                "the script set is compared with an independent replace / upsert / remove computation, pending records must be gone, and when the progress invariant held "
+                "before the call the new resume point must be at or below every registered script's number",
+        "assumptions": ["RocksDB WriteBatch atomicity and ordering trusted"],
+        "trusted_base": ["modelled: update_filter_scripts, update_block_number, matched-block records"],
+    },
 }
